@@ -71,6 +71,15 @@ def freqFromPhase (twoPi sr : Rat) (p : List Rat) : List Rat :=
 def phaseFromFreq (twoPi sr start : Rat) (f : List Rat) : List Rat :=
   (cumsum (f.map fun v => v / sr * twoPi)).map fun c => start + c
 
+/-! ## phase_from_complex_signal after its library part -/
+
+/-- `phase_from_complex_signal` given `U` = unwrapped (and median-smoothed) angle of the complex
+    signal: add the phase-jump offset (`π/2` ascending, `0` peak, `-π/2` descending, `π` trough)
+    and wrap on request -/
+def phaseFromComplex (off twoPi : Rat) (wrapped : Bool) (U : List Rat) : List Rat :=
+  let P := U.map fun u => u + off
+  if wrapped then P.map (wrap twoPi) else P
+
 /-! ## frequency_transform around the analytic-signal oracle -/
 
 /-- `frequency_transform` on one column.  `H imf = (U, A)`: `U` the smoothed
@@ -221,6 +230,13 @@ def handle (o : Op) : Option String :=
       if x.length < 2 then return "err ValueError"
       let r := frequencyTransform (fun _ => (u, a)) halfPi twoPi sr x
       return s!"ok | {fmtVec r.1} | {fmtVec r.2.1} | {fmtVec r.2.2}"
+  | "PCS" => some <| Id.run do
+      let some off := o.rat? "off" | return "bad-op"
+      let some twoPi := o.rat? "twopi" | return "bad-op"
+      let some w := o.nat? "wrapped" | return "bad-op"
+      let some u := o.vec? 0 | return "bad-op"
+      if twoPi ≤ 0 then return "bad-op"
+      return s!"ok | {fmtVec (phaseFromComplex off twoPi (w != 0) u)}"
   | "UNWRAP" => some <| Id.run do
       let some m := o.rat? "m" | return "bad-op"
       let some p := o.vec? 0 | return "bad-op"
